@@ -523,6 +523,17 @@ def run(chk):
     if nheld < 20:
         raise AnalysisBroken("C13 R13.3: only %d calls under a lock found" % nheld)
 
+    # ------------------------------------------------------------------ R13.10 = C08 R8.7: the shared syntax tree holds no per-evaluation state
+    from .c08 import compiled_closure_captures
+    r10 = chk.rule("R13.10", "closures stored in compiled nodes of the (shared, lock-free) syntax tree capture only immutable plain values (C08 R8.7 re-decided)",
+                   "each thread sees only its own local variables: two threads evaluating the same function do not share a loop counter or any other evaluation state through the tree")
+    caps13 = compiled_closure_captures(prog)
+    r10.anchor(len(caps13) >= 3, "captures of closures handed to make_compiled_node (found %d)" % len(caps13))
+    for f, lam, name, t, ok in caps13:
+        r10.ob("%s: compiled closure captures `%s` : %s" % (strip_targs(f["q"]).replace("chaiscript::optimizer::", ""), name, t[:50]), ok, "%s:%d" % (f["file"], lam["l"]), f["q"],
+               "state captured into the tree is reachable from every thread that evaluates this node, without any lock")
+    r10.require(3, "captures")
+
     # ------------------------------------------------------------------ R13.9 locks are taken unconditionally
     r9 = chk.rule("R13.9", "every lock object on an engine mutex is constructed in the blocking form `lock(mutex)`: no try_to_lock / defer_lock / adopt_lock construction, no try_lock()",
                   "every thread sees each registration once it has returned: a reader that could not get the lock has nothing but stale per-thread data to fall back on (and R13.2's 'lock held in this scope' reasoning presupposes the blocking form)")
